@@ -459,6 +459,8 @@ class Parser:
 
     def parse_primary(self):
         kind, v = self.next()
+        if kind == 'str':
+            return ('str', v)
         if kind == 'num':
             m = re.match(r'^(0x[0-9a-fA-F_]*?|0b[01_]*?|0o[0-7_]*?|[0-9][0-9_]*?)_?((?:[ui](?:8|16|32|64|128|size)))?$', v)
             body, suf = m.group(1), m.group(2)
@@ -482,6 +484,17 @@ class Parser:
                     return ('repeat', es[0], n)
                 self.accept(',')
             return ('array', es)
+        if v == 'if' and self.peek()[1] == 'let' and self.peek(1)[1] == 'Some':
+            self.next()
+            self.next()
+            self.expect('(')
+            var = self.next()[1]
+            self.expect(')')
+            self.expect('=')
+            scrut = self.parse_expr()
+            a = self.parse_block()
+            b = self.parse_block() if self.accept('else') else None
+            return ('ifsome', var, scrut, a, b)
         if v == 'if' and self.peek()[1] == 'let':
             self.next()
             pat = self.parse_slice_pat()
@@ -1256,12 +1269,17 @@ class Emitter:
         """function-level result: `&mut [u64]` parameters are returned (in order) in front of the function's own result"""
         mr = getattr(self, 'mut_ret', None)
         if not mr:
-            return term
+            return '(some %s)' % term if getattr(self, 'panics', False) else term
         muts, unit = mr
         wd = getattr(self, 'window_done', {})
-        parts = [('(%s ++ %s)' % (lean_ident(wd[n]), lean_ident(n)) if n in wd else lean_ident(n)) for n in muts] \
-            + ([] if unit else [term])
-        return parts[0] if len(parts) == 1 else '(' + ', '.join(parts) + ')'
+        wr = getattr(self, 'window_rest', {})
+
+        def whole(n):
+            t = '(%s ++ %s)' % (lean_ident(wd[n]), lean_ident(n)) if n in wd else lean_ident(n)
+            return '(%s ++ %s)' % (t, lean_ident(wr[n])) if n in wr else t
+        parts = [whole(n) for n in muts] + ([] if unit else [term])
+        out = parts[0] if len(parts) == 1 else '(' + ', '.join(parts) + ')'
+        return '(some %s)' % out if getattr(self, 'panics', False) else out
 
     def names_in(self, node, acc):
         if isinstance(node, tuple):
@@ -1533,6 +1551,28 @@ class Emitter:
             env[t] = te
             body, tb = self.stmts(chain[1] + rest, env, exp, result)
             return 'let %s := %s\n  %s' % (t, se, body), tb
+        if k == 'let' and s[1][0] == 'pid' and s[3][0] == 'mcall' and s[3][2] in ('expect', 'unwrap'):
+            # `let x = opt.expect("…");`: `None` panics
+            if not self.panics or (isinstance(result, tuple) and result[0] == 'loop'):
+                raise TranslateError('panic site inside a loop')
+            so, to = self.expr(s[3][1], env, None)
+            if not (isinstance(to, tuple) and to[0] == 'option'):
+                raise TranslateError('expect / unwrap of a non-Option')
+            env[s[1][1]] = to[1] or 'usize'
+            body, tb = self.stmts(rest, env, exp, result)
+            return 'match %s with\n  | none => none\n  | some %s => (\n  %s)' % (so, lean_ident(s[1][1]), body), tb
+        if k in ('expr', 'expr_nosemi', 'tail') and s[1][0] == 'ifsome':
+            _, var, scrut, a, b = s[1]
+            if b is None or not self.ends_with_return(b) or self.has_return(a):
+                raise TranslateError('unsupported form of `if let Some(..)`')
+            so, to = self.expr(scrut, env, None)
+            if not (isinstance(to, tuple) and to[0] == 'option'):
+                raise TranslateError('`if let Some(..)` on a non-Option')
+            ea = dict(env)
+            ea[var] = to[1] or 'usize'
+            sa, ta = self.stmts(a[1] + rest, ea, exp, result)
+            sb, _ = self.stmts(b[1], dict(env), exp, result)
+            return 'match %s with\n  | some %s => (\n  %s)\n  | none => (\n  %s)' % (so, lean_ident(var), sa, sb), ta
         if k in ('return', 'tail') and s[1] is not None and self.mut_call(('expr', s[1])) is not None \
                 and not self.mut_call(('expr', s[1]))[2]:
             # `return f(xs, …)` / a trailing `f(xs, …)` where `f` updates `xs`: bind the result first
@@ -1545,7 +1585,13 @@ class Emitter:
             sc, tc = self.expr(call, env, None)
             self.tmp = getattr(self, 'tmp', 0) + 1
             t = 'sel%d' % self.tmp
-            lines = 'let %s := %s\n  ' % (t, sc)
+            csig = self.fns.get(call[1][-1], ()) if call[0] == 'call' else ()
+            callee_panics = len(csig) > 7 and csig[7]
+            if callee_panics:
+                if not self.panics or (isinstance(result, tuple) and result[0] == 'loop'):
+                    raise TranslateError('call of a panicking function inside a loop')
+                tc = tc[1] if isinstance(tc, tuple) and tc[0] == 'option' else tc
+            lines = '' if callee_panics else 'let %s := %s\n  ' % (t, sc)
             n = len(targets) + (0 if unit else 1)
             for i, tg in enumerate(targets):
                 proj = ('.2' * i + ('.1' if i < n - 1 else '')) if n > 1 else ''
@@ -1560,6 +1606,8 @@ class Emitter:
                 elif k == 'assign':
                     lines += self.assign_lines(s[1], t + proj, rt, env)
             body, tb = self.stmts(rest, env, exp, result)
+            if callee_panics:
+                return 'match %s with\n  | none => none\n  | some %s => (\n  %s%s)' % (sc, t, lines, body), tb
             return lines + body, tb
         if k == 'let' and s[3] == ('uninit',):
             # declared here, assigned in every branch of the `if` that follows (see `desugar`); its type is that of the value
@@ -1780,7 +1828,9 @@ class Emitter:
                     out.append(('expr_nosemi', ('if', cond, ('block', [bind] + na[1]), rw_block(b, prov, shadow))))
                     continue
                 if k == 'assign' and st[1][0] == 'path' and len(st[1][1]) == 1 and st[1][1][0] in mutparams \
-                        and st[1][1][0] not in shadow:
+                        and st[1][1][0] not in shadow \
+                        and not (st[2][0] == 'index' and st[2][1] == st[1] and st[2][2][0] == 'rangeto'
+                                 and st[1][1][0] in getattr(self, 'window_rest', {})):
                     v = st[1][1][0]
                     sf = suffix_of(st[2], prov)
                     if sf is None or sf[0] != v:
@@ -1807,8 +1857,16 @@ class Emitter:
                         return bool(node) and (node[0] in ('break', 'continue', 'return') or any(jumps(x) for x in node))
                     return isinstance(node, list) and any(jumps(x) for x in node)
                 first = min(i for i, st in enumerate(blk[1]) if st[0] == 'let' and st[3][0] == 'mcall' and st[3][2] == 'split_at_mut')
-                if jumps(blk[1][first:]):
+                tail_jump = blk[1][-1][0] in ('break', 'continue', 'return') and (blk[1][-1][0] != 'return' or blk[1][-1][1] is None)
+                if jumps(blk[1][first:-1] if tail_jump else blk[1][first:]):
                     raise TranslateError('break / continue / return while the halves of split_at_mut are live')
+                if tail_jump:
+                    # the block ends by jumping: the halves' contents are written back just before
+                    last = out.pop()
+                    for v, t, r in splits:
+                        out.append(('assign', ('path', [v]), ('concat', ('path', [t]), ('path', [r]))))
+                    out.append(last)
+                    return ('block', out)
             for v, t, r in splits:
                 # the two halves go out of scope here: their contents are the buffer's
                 out.append(('assign', ('path', [v]), ('concat', ('path', [t]), ('path', [r]))))
@@ -1834,7 +1892,7 @@ class Emitter:
         return nb
 
     # ---- source-level rewrites done before translation ---------------------------------------------------------------------
-    def desugar(self, blk):
+    def desugar(self, blk, mutparams=()):
         """meaning-preserving rewrites of the parsed body:
         * `unsafe { xs.get_unchecked(i) }` / `get_unchecked_mut(i)` are `xs[i]` (the reference is read or written at once);
           `let p = unsafe { xs.get_unchecked_mut(i) };` makes `p` a name for the place `xs[i]` in the rest of the block (the
@@ -1905,11 +1963,43 @@ class Emitter:
                 return ('block', st[:-1] + [('expr_nosemi', ('if', last[1], into(last[2], target), into(last[3], target)))])
             return ('block', st[:-1] + [('assign', target, last)])
 
+        def prefix_of(e, v):
+            """`&mut v[..hi]` -> hi"""
+            if isinstance(e, tuple) and e and e[0] == 'refmut':
+                e = e[1]
+            e = strip(e)
+            if isinstance(e, tuple) and e and e[0] == 'refmut':
+                e = e[1]
+            if (isinstance(e, tuple) and e and e[0] == 'index' and e[1] == ('path', [v]) and e[2][0] == 'rangeto'):
+                return e[2][1]
+            return None
+
+        def narrow(v, hi):
+            """`let v = &mut v[..hi];`: from here on `v` is the prefix; the limbs behind it are kept in `v_rest`"""
+            rest = v + '_rest'
+            self.window_rest[v] = rest
+            return [('assign', ('path', [rest]), ('concat', ('drop', ('path', [v]), hi), ('path', [rest]))),
+                    ('assign', ('path', [v]), ('index', ('path', [v]), ('rangeto', hi)))]
+
         def stmts(lst):
             out = []
             lst = list(lst)
             while lst:
                 st = lst.pop(0)
+                if st[0] == 'let' and st[1][0] == 'pid' and st[1][1] in mutparams:
+                    v = st[1][1]
+                    hi = prefix_of(st[3], v)
+                    if hi is not None:
+                        out += narrow(v, ex(hi))
+                        continue
+                    e = st[3]
+                    if (isinstance(e, tuple) and e and e[0] == 'ifsome' and e[4] is not None and len(e[3][1]) == 1
+                            and e[3][1][0][0] == 'tail' and prefix_of(e[3][1][0][1], v) is not None):
+                        # `let v = if let Some(i) = E { &mut v[..hi] } else { …; return; };`
+                        hi = prefix_of(e[3][1][0][1], v)
+                        out.append(('expr_nosemi', ('ifsome', e[1], ex(e[2]), ('block', narrow(v, ex(hi))), ('block', stmts(e[4][1])))))
+                        continue
+                    raise TranslateError('re-binding of the slice parameter %s' % v)
                 if st[0] == 'let' and st[1][0] == 'pid':
                     u = unchecked(st[3])
                     if u is not None and u[2] == 'get_unchecked_mut':
@@ -1959,11 +2049,32 @@ class Emitter:
             parts = [('uint' if n == 'self' else 'slice') for n in muts] + ([] if unit else [rt])
             rt = parts[0] if len(parts) == 1 else ('tuple', parts)
             self.mut_ret = (muts, unit)
+        def may_panic(node):
+            if isinstance(node, list):
+                return any(may_panic(x) for x in node)
+            if isinstance(node, tuple) and node:
+                if node[0] == 'mcall' and node[2] in ('expect', 'unwrap'):
+                    return True
+                if node[0] == 'call' and len(self.fns.get(node[1][-1], ())) > 7 and self.fns[node[1][-1]][7]:
+                    return True
+                if node[0] == 'mcall' and len(self.fns.get('Uint::' + node[2], ())) > 7 and self.fns['Uint::' + node[2]][7] \
+                        and getattr(self, 'uint_mode', False) is True:
+                    return True
+                return any(may_panic(x) for x in node)
+            return False
+        # a function that can panic (`expect` / `unwrap` of `None`, or a callee that can) returns `Option`: `none` = panic
+        self.panics = may_panic(fn['body'])
+        if self.panics:
+            rt = ('option', rt)
         self.cur_rt = rt
         self.aux = []
         self.uses_fuel = False
         self.nloops = 0
-        fbody = self.desugar(fn['body'])
+        self.window_rest = {}
+        mutp = [n for n, t in fn['params'] if self.ty(t) == 'mutslice']
+        fbody = self.desugar(fn['body'], mutp)
+        if self.window_rest:
+            fbody = ('block', [('let', ('pid', r), None, ('nil',)) for r in self.window_rest.values()] + fbody[1])
         self.window_done = {}
         if any(self.ty(t) == 'mutslice' for _, t in fn['params']):
             fbody = self.window_rewrite(fbody, [n for n, t in fn['params'] if self.ty(t) == 'mutslice'])
@@ -2080,7 +2191,7 @@ def translate(items, namespace='Ruint.Gen', imports=('Ruint.Gen.Prelude',), fns=
             mutidx = [i for i, (_, t) in enumerate(fn['params']) if em.ty(t) == 'mutslice']
             fns[key] = (it['lean'], [em.ty(t) for _, t in fn['params']], em.cur_rt, em.uses_fuel,
                         list(fn.get('consts', [])), bool(fn.get('self_mut')),
-                        (mutidx, bool(em.mut_ret and em.mut_ret[1])) if mutidx else None)
+                        (mutidx, bool(em.mut_ret and em.mut_ret[1])) if mutidx else None, bool(em.panics))
             for alias in it.get('aliases', []):
                 fns[alias] = fns[key]
             out.append('/-- `%s` (%s) -/\n%s' % (it['fn'], it['file'].split('/src/')[-1], code))
@@ -2221,7 +2332,8 @@ def knuth_items(repo):
     return [{'file': a + 'small.rs', 'fn': 'div_nx1', 'lean': 'div_nx1', 'group': 'knuth'},
             {'file': a + 'small.rs', 'fn': 'div_nx2', 'lean': 'div_nx2', 'group': 'knuth'},
             {'file': a + 'knuth.rs', 'fn': 'div_nxm_normalized', 'lean': 'div_nxm_normalized', 'group': 'knuth'},
-            {'file': a + 'knuth.rs', 'fn': 'div_nxm', 'lean': 'div_nxm', 'group': 'knuth'}]
+            {'file': a + 'knuth.rs', 'fn': 'div_nxm', 'lean': 'div_nxm', 'group': 'knuth'},
+            {'file': a + 'mod.rs', 'fn': 'div', 'lean': 'div', 'group': 'knuth'}]
 
 
 GROUPS = [('core', 'Words', ('Ruint.Gen.Prelude',)),
